@@ -104,7 +104,27 @@ def stmt(rng, ints, bools, profile="full", lhs=None, narrow=None):
         if k == "havoc":
             return {"op": "havoc", "x": rng.choice(W)}
         return {"op": "select", "x": rng.choice(W), "c": cst(rng, ints), "e1": le(rng, ints, maxterms=1), "e2": le(rng, ints, maxterms=1)}
-    if profile == "c17":
+    if profile == "c17b" and bools and rng.random() < 0.45:
+        # boolean statements, conversions and external calls for the transformation / liveness programs (every operand position)
+        k = rng.choice(["bassign_cst", "bassign_cst", "bassign_var", "bop", "bassume", "bselect", "zext", "trunc", "callx"])
+        b = rng.choice(bools)
+        if k == "bassign_cst":
+            return {"op": "bassign_cst", "x": b, "c": {"e": {"k": rng.randint(-1, 1), "t": [[rng.choice([1, -1]), rng.choice(ints)]]},
+                                                        "r": rng.choice(["le", "lt", "eq", "ne"])}}
+        if k == "bassign_var":
+            return {"op": "bassign_var", "x": b, "y": rng.choice(bools), "neg": rng.randint(0, 1)}
+        if k == "bop":
+            return {"op": "bop", "f": rng.choice(["and", "or", "xor"]), "x": b, "y": rng.choice(bools), "z": rng.choice(bools)}
+        if k == "bassume":
+            return {"op": "bassume", "x": b, "neg": rng.randint(0, 1)}
+        if k == "bselect":
+            return {"op": "bselect", "x": b, "c": rng.choice(bools), "y": rng.choice(bools), "z": rng.choice(bools)}
+        if k == "zext":
+            return {"op": "cast", "f": "zext", "x": rng.choice(W), "y": b, "sk": "bool", "dk": "int", "sw": 1, "dw": 32}
+        if k == "trunc":
+            return {"op": "cast", "f": "trunc", "x": b, "y": rng.choice(ints), "sk": "int", "dk": "bool", "sw": 32, "dw": 1}
+        return {"op": "callx", "lhs": rng.sample(W, rng.randint(1, min(2, len(W)))), "args": rng.sample(ints + bools, rng.randint(0, 2))}
+    if profile in ("c17", "c17b"):
         # statements that change magnitudes by at most a constant (no var+var, no multiplication): executions
         # of bounded length cannot leave the universe (needed by spec/Transform.tla, spec/NonInterf.tla)
         k = rng.choice(["assign"] * 5 + ["arith"] * 3 + ["assume"] * 3 + ["havoc", "select"])
